@@ -45,6 +45,7 @@ var respKinds = []string{
 	"empty-batch", "empty-report", "foreign-report", "normal", "bare-ran", "missing-receipt-block", "missing-invocation-block",
 	"receipt-not-a-receipt", "receipt-empty-out", "receipt-no-issuer", "receipt-bad-issuer", "receipt-empty-sig", "receipt-fx", "report-nil-value",
 	"root-not-message", "no-roots", "two-roots", "garbage", "empty-body", "truncated", "flipped",
+	"receipt-bad-issuer", "receipt-bad-issuer", "text-error", "text-error", "text-error",
 }
 
 func genC15(cfg Config, emit Emit) error {
@@ -207,10 +208,17 @@ func respBody(kind string, r *rand.Rand) ([]byte, []ipld.Link) {
 		rt := encodeMsgRoot([]ipld.Link{}, reportFor(inv.Link(), rr.Link()))
 		return carOf([]ipld.Link{rt.Link()}, []ipld.Block{rr, rt, inv.Root()}), lookups
 	case "receipt-bad-issuer":
-		s := []string{"", "did:", "nonsense", "did:key:zzz"}[r.Intn(4)]
+		valid := svc.DID().String()
+		cands := []string{"", "did:", "nonsense", "did:key:zzz", "did", "did:key", "did:key:", "did:key:z", "did:key:m", "did:key:z6Mk", "did:web:", "did:k\x00y:", "did:key:z" + strings.Repeat("1", 70),
+			valid[:len(valid)/2], valid[:len(valid)-1], valid + "x", " " + valid, "DID:KEY:" + valid[8:], valid[:1+r.Intn(len(valid)-1)]}
+		s := cands[r.Intn(len(cands))]
 		rr := rawReceipt(&s, []byte{0xed, 0xa1, 0x03}, inv.Link())
 		rt := encodeMsgRoot([]ipld.Link{}, reportFor(inv.Link(), rr.Link()))
 		return carOf([]ipld.Link{rt.Link()}, []ipld.Block{rr, rt, inv.Root()}), lookups
+	case "text-error":
+		// what gateways and proxies answer: short texts, JSON, HTML; with and without a final newline
+		bodies := []string{"Not Found", "Not Found\n", "", "\n", "{\"error\":\"bad gateway\"}", "<html><body>502</body></html>", "x", strings.Repeat("a", 2000), "line one\nline two", "\x00\x01\x02", "ünï"}
+		return []byte(bodies[r.Intn(len(bodies))]), lookups
 	case "receipt-empty-sig":
 		s := svc.DID().String()
 		rr := rawReceipt(&s, []byte{}, dummyLink(6))
@@ -264,12 +272,20 @@ func execResp(a []string) (res Result) {
 	step = "building the response"
 	body, lookups := respBody(kind, r)
 	pools()
+	ctPick := 0
+	if kind == "text-error" {
+		ctPick = 1 + atoi(a[2])%5
+	}
 	var ch transport.Channel = fakeChannel{status, body}
 	if len(a) > 3 && a[3] == "http" {
 		// the library's own HTTP channel against a server that answers with this status and body
 		ts := httptest.NewServer(http.HandlerFunc(func(w http.ResponseWriter, r *http.Request) {
 			io.Copy(io.Discard, r.Body)
-			w.Header().Set("Content-Type", carCT)
+			switch ct := []string{carCT, "text/plain", "text/plain; charset=utf-8", "application/json", "text/html", ""}[ctPick%6]; ct {
+			case "": // let net/http sniff it
+			default:
+				w.Header().Set("Content-Type", ct)
+			}
 			w.WriteHeader(status)
 			if status != 204 && status != 304 {
 				w.Write(body)
